@@ -103,6 +103,9 @@ func c18Hash(c *Ctx) {
 			if !c.Thorough() && ki > 0 && li%3 != ki%3 {
 				continue
 			}
+			if n > 10000 && ki > 0 {
+				continue
+			}
 			m := make([]byte, n)
 			_, _ = r.Read(m)
 			if n > 0 && r.IntN(4) == 0 {
